@@ -8,7 +8,7 @@ from typing import Dict, List, Optional, Set, Tuple
 from ..core import astutil as A
 from ..core.index import AnalysisError, FuncInfo, external_module
 from ..selftest import M
-from .common import (may_conds, is_early_exit_guard, BASE_OUTLINE, OTF_OUTLINE, T, attr_stores, calls_named, conds, entails, every_origin, fold_body,
+from .common import (may_conds, atoms_of, is_early_exit_guard, BASE_OUTLINE, OTF_OUTLINE, T, attr_stores, calls_named, conds, entails, every_origin, fold_body,
                      key, need, where)
 
 FID = "ufo2ft.fontInfoData"
@@ -653,7 +653,26 @@ def r164(prog, chk):
     for tag, _b, _m in pairs + [("name", "", ""), ("gasp", "", "")]:
         chk.ob("R16.4", f"info_tables has {tag}", tag in it, ic.module.relpath, detail="table participates in the override",
                message=f"InfoCompiler.info_tables lacks '{tag}': its override is never applied")
-    chk.minimum("R16.4", 50)
+    # the copy itself: a field of the temporary table is written whenever it exists (`is not None`), whatever its value -
+    # an override that compiles to 0 / an empty flag set is an explicit value like any other
+    sa = ix.get_method(IC, "_set_attrs", own=True)
+    sets = [c for c in A.body_nodes(sa.node) if isinstance(c, ast.Call) and isinstance(c.func, ast.Name) and c.func.id == "setattr" and len(c.args) == 3]
+    need(len(sets) == 1, f"cannot interpret {sa.short}: setattr")
+    val = sets[0].args[2]
+    gets = [c for c in A.body_nodes(sa.node) if isinstance(c, ast.Call) and isinstance(c.func, ast.Name) and c.func.id == "getattr" and len(c.args) == 3 and A.is_const(c.args[2], None)]
+    okv = False
+    if isinstance(val, ast.Name):
+        ds = prog.reaching(sa, val.id, val)
+        okv = bool(ds) and all(d.value is not None and d.value in gets for d in ds)
+    elif val in gets:
+        okv = True
+    gs_ = [g for g in may_conds(prog, sa, sets[0]) if g.kind in ("if", "boolop")]
+    okg = len(gs_) == 1 and [a_[0] for a_ in atoms_of(gs_[0].test, gs_[0].polarity) if a_[0] != "truthy" or a_[1] != (val.id if isinstance(val, ast.Name) else "")] == ["isnot"]
+    chk.ob("R16.4", f"{sa.short}|a compiled override is copied whenever the temporary table has the field (compared with None only)", okv and okg, where(sa, sets[0]),
+           detail=f"value: {T(val)}; guard: {[T(g.test, 60) for g in gs_]}",
+           message=f"{sa.short}: the value copied into the variable font is not plainly the temporary table's field under an `is not None` test (value `{T(val, 50)}`, guards "
+                   f"{[T(g.test, 50) for g in gs_]}): an override that compiles to 0 / no flags is dropped and the default source's value stays")
+    chk.minimum("R16.4", 51)
 
 
 # ----------------------------------------------------------------------------- R16.5
@@ -927,6 +946,10 @@ def r1610(prog, chk):
 
 
 MUTANTS = [
+    M("zero-valued overrides of a variable font are dropped (seeded C16g)", "ufo2ft/infoCompiler.py", "InfoCompiler._set_attrs",
+      "if (value := getattr(temp, attr, None)) is not None:\n    setattr(orig, attr, value)", "value = getattr(temp, attr, None) or getattr(orig, attr, None)\nif value is not None:\n    setattr(orig, attr, value)", rule="R16.4"),
+    M("overrides only copied when truthy", "ufo2ft/infoCompiler.py", "InfoCompiler._set_attrs",
+      "(value := getattr(temp, attr, None)) is not None", "(value := getattr(temp, attr, None))", rule="R16.4"),
     M("built name record skipped when any language has that name ID (seeded C16f)", "ufo2ft/outlineCompiler.py", "BaseOutlineCompiler.setupTable_name",
       "name.getName(nameId, platformId, platEncId, langId)", "name.getName(nameId, platformId, platEncId)", rule="R16.10"),
     M("explicit name records written as English", "ufo2ft/outlineCompiler.py", "BaseOutlineCompiler.setupTable_name",
